@@ -67,29 +67,83 @@ Theorem Refs_repaired_bare : forall (W : world) (L : lib) (h : list op) (e : ent
   warm true W L h (OCall e (RStr s) (pre ++ c :: post)) = expect e s m o.
 Proof. exact repaired_bare. Qed.
 
-(* a qualified name m.rest: evaluated in module m whoever calls and whatever ran before; the guard says that the text
-   "m." does not occur again in rest *)
+(* ---- qualified names; forwardref repaired a second time (proposed_fixes/C11-qualified-name-mangled.diff:
+   l_strip_lead, "<module>." is dropped only where it leads a dotted name) and the head rule
+   (proposed_fixes/C11-dotted-prefix-is-caller-name.diff: l_caller_head, a leading name that the calling module binds is
+   a name of that module) ---- *)
+(* m.rest, rest any dotted name: where the calling module does not bind the name m (or is m itself), rest is evaluated
+   in module m -- every history, every stack.  No guard about the text any more. *)
 Theorem Refs_repaired_qualified : forall (W : world) (L : lib) (h : list op) (e : entry) (ust : list frame)
     (m rest : string),
   match e with ECodecM | ECodecU | ECodec | EForwardref | EDecodePre | ECodecPost => False | _ => True end ->
-  is_ident m = true -> replace_all (m ++ ".") rest = rest ->
+  l_strip_lead L = true ->
+  is_ident m = true -> dotted_text rest = true ->
+  lib_ok L e = true ->
+  (caller_module_binding (l_pkg L) ust m = None \/ caller_module_binding (l_pkg L) ust m = Some m) ->
   warm true W L h (OCall e (RStr (m ++ "." ++ rest)) ust) = one (evaluate W (rest, Some m)).
 Proof. exact repaired_qualified. Qed.
 
 Theorem Refs_repaired_qualified_name : forall (W : world) (L : lib) (h : list op) (e : entry) (ust : list frame)
     (m n : string) (d : table) (o : obj),
   match e with ECodecM | ECodecU | ECodec | EForwardref | EDecodePre | ECodecPost => False | _ => True end ->
+  l_strip_lead L = true ->
   is_ident m = true -> is_ident n = true ->
+  lib_ok L e = true ->
+  (caller_module_binding (l_pkg L) ust m = None \/ caller_module_binding (l_pkg L) ust m = Some m) ->
   lookup m (w_modules W) = Some d -> lookup n d = Some o -> not_module o = true ->
   warm true W L h (OCall e (RStr (m ++ "." ++ n)) ust) = ROk [o].
 Proof. exact repaired_qualified_name. Qed.
 
-(* the guard of Refs_repaired_qualified is necessary (both variants): app.webapp.Model is looked up as webModel *)
+(* where the calling module (c, running in cm) DOES bind the leading name, the whole text is an expression of that
+   module -- `typing.Optional[Node]`, `models.Node` written where typing / models are imported *)
+Theorem Refs_repaired_caller_head : forall (W : world) (L : lib) (h : list op) (e : entry)
+    (pre : list frame) (c : frame) (post : list frame) (m rest : string) (g : obj) (cm : string),
+  match e with ECodecM | ECodecU | ECodec | EForwardref | EDecodePre | ECodecPost => False | _ => True end ->
+  l_strip_lead L = true -> l_caller_head L = true ->
+  is_ident m = true -> dotted_text rest = true ->
+  lib_ok L e = true -> forallb (skipped (l_pkg L)) pre = true ->
+  skipped (l_pkg L) c = false -> lookup m (f_globals c) = Some g -> f_gname c = Some cm ->
+  String.prefix (cm ++ ".") (m ++ "." ++ rest) = false ->
+  warm true W L h (OCall e (RStr (m ++ "." ++ rest)) (pre ++ c :: post))
+  = one (evaluate W ((m ++ "." ++ rest)%string, Some cm)).
+Proof. exact repaired_caller_head. Qed.
+
+(* ... so `import m' as m` in the calling module and "m.n" give the n of m' *)
+Theorem Refs_repaired_caller_head_name : forall (W : world) (L : lib) (h : list op) (e : entry)
+    (pre : list frame) (c : frame) (post : list frame) (m n : string) (g : obj) (cm : string)
+    (dc : table) (m' : string) (d' : table) (o : obj),
+  match e with ECodecM | ECodecU | ECodec | EForwardref | EDecodePre | ECodecPost => False | _ => True end ->
+  l_strip_lead L = true -> l_caller_head L = true ->
+  is_ident m = true -> is_ident n = true ->
+  lib_ok L e = true -> forallb (skipped (l_pkg L)) pre = true ->
+  skipped (l_pkg L) c = false -> lookup m (f_globals c) = Some g -> f_gname c = Some cm ->
+  String.prefix (cm ++ ".") (m ++ "." ++ n) = false ->
+  lookup cm (w_modules W) = Some dc -> lookup m dc = Some (OMod m') ->
+  lookup m' (w_modules W) = Some d' -> lookup n d' = Some o -> not_module o = true ->
+  warm true W L h (OCall e (RStr (m ++ "." ++ n)) (pre ++ c :: post)) = ROk [o].
+Proof. exact repaired_caller_head_name. Qed.
+
+(* the PINNED forwardref (str.replace: L0 before, L1 after the first repair) drops every occurrence of "<module>.":
+   app.webapp.Model is looked up as webModel *)
 Theorem Refs_refuted_qualified_mangled :
   forall fixed, cold fixed W0 (if fixed then L1 else L0) (OCall EUnmarshal (RStr "app.webapp.Model") [fc; fmain]) = RErr ENameError /\
   evaluate W0 ("webapp.Model", Some "app") = Ok (cls 7 "app.webapp") /\
   replace_all ("app" ++ ".") "webapp.Model" = "webModel".
 Proof. exact refuted_qualified_mangled. Qed.
+
+(* the PINNED head rule: with `import mod_a as ma` in the calling module, "ma.Node" is looked up in a module called ma *)
+Theorem Refs_refuted_dotted_head_pinned :
+  cold true W0 L2_head_pinned (OCall EUnmarshal (RStr "ma.Node") [fd; fmain]) = RErr ENameError /\
+  cold true W0 L2 (OCall EUnmarshal (RStr "ma.Node") [fd; fmain]) = ROk [cls 1 "mod_a"] /\
+  lookup "ma" d_mod_d = Some (OMod "mod_a").
+Proof. exact refuted_dotted_head_pinned. Qed.
+
+(* the hypothesis of Refs_repaired_qualified about the calling module is necessary: a binding there wins *)
+Theorem Refs_repaired_caller_name_wins :
+  cold true W0 L2 (OCall EUnmarshal (RStr "mod_b.Node") [fd; fmain]) = ROk [cls 1 "mod_a"] /\
+  evaluate W0 ("Node", Some "mod_b") = Ok (cls 2 "mod_b") /\
+  caller_module_binding "typelib" [fd; fmain] "mod_b" = Some "mod_d".
+Proof. exact repaired_caller_name_wins. Qed.
 
 (* "bound in the caller's GLOBALS" is necessary: a class defined in the calling function's body is not found *)
 Theorem Refs_repaired_refuted_local_only :
@@ -133,6 +187,20 @@ Example Refs_repaired_examples :
   warm true W0 L1 [call_b] (OCall EForwardref (RStr "Node") [fa; fb_local; fmain]) = RRef "Node" (Some "mod_a") (Ok (cls 1 "mod_a")).
 Proof. exact repaired_examples. Qed.
 
+Example Refs_repaired_mangled_example :
+  cold true W0 L2 (OCall EUnmarshal (RStr "app.webapp.Model") [fc; fmain]) = ROk [cls 7 "app.webapp"] /\
+  strip_lead "app" "app.webapp.Model" = "webapp.Model" /\
+  strip_lead "app" "dict[app.K, xapp.app.V] | app.W" = "dict[K, xapp.app.V] | W".
+Proof. exact repaired_mangled_example. Qed.
+
+Example Refs_repaired_qualified_examples :
+  warm true W0 L2 [call_a] (OCall EUnmarshal (RStr "mod_b.Node") [fc; fmain]) = ROk [cls 2 "mod_b"] /\
+  caller_module_binding "typelib" [fc; fmain] "mod_b" = None /\
+  warm true W0 L2 [call_b] (OCall EDecode (RStr "mod_a.Node") [fc; fmain]) = ROk [cls 1 "mod_a"] /\
+  caller_module_binding "typelib" [fc; fmain] "mod_a" = Some "mod_c" /\
+  libs_ok L2 = true /\ l_strip_lead L2 = true /\ l_caller_head L2 = true.
+Proof. exact repaired_qualified_examples. Qed.
+
 Print Assumptions Refs_refuted_cross_module.
 Print Assumptions Refs_refuted_resolver_memo.
 Print Assumptions Refs_refuted_factory_key.
@@ -144,6 +212,10 @@ Print Assumptions Refs_repaired_bare.
 Print Assumptions Refs_repaired_qualified.
 Print Assumptions Refs_repaired_qualified_name.
 Print Assumptions Refs_refuted_qualified_mangled.
+Print Assumptions Refs_repaired_caller_head.
+Print Assumptions Refs_repaired_caller_head_name.
+Print Assumptions Refs_refuted_dotted_head_pinned.
+Print Assumptions Refs_repaired_caller_name_wins.
 Print Assumptions Refs_repaired_refuted_local_only.
 Print Assumptions Refs_extract_innermost.
 Print Assumptions Refs_extract_global_before_local.
